@@ -439,7 +439,11 @@ func (r *Reconciler) Reconcile(ctx context.Context, req reconcile.Request) (reco
 		}
 
 		log.Debug("Successfully deleted claim")
-		cm.SetConditions(xpv1.ReconcileSuccess())
+		// Removing the finalizer updated the claim, which replaced our
+		// in-memory copy - including the Deleting condition set above - with
+		// what the API server returned. Set it again so that a claim that
+		// outlives our finalizer doesn't keep reporting that it's available.
+		cm.SetConditions(xpv1.Deleting(), xpv1.ReconcileSuccess())
 		return reconcile.Result{Requeue: false}, errors.Wrap(r.client.Status().Update(ctx, cm), errUpdateClaimStatus)
 	}
 
